@@ -672,4 +672,131 @@ theorem getD_le_of_optLe {a b : Option Int} (h : optLe a b = true) (hb : ∀ v, 
     | none => simp [optLe] at h
     | some y => simpa [optLe] using h
 
+/-! ### the future offset of an instance, from its prerequisite atoms -/
+
+def offStep (p : Int) (acc : Option Int) (q : Int) : Option Int :=
+  if q > p then
+    (match acc with
+     | none => some (q - p)
+     | some o => if q - p > o then some (q - p) else acc)
+  else acc
+
+theorem atomFutOff_eq (p : Int) (pres : List Pre) :
+    atomFutOff p pres = (pres.flatMap fun pr => pr.atoms.map fun a => a.1.pt).foldl (offStep p) none := rfl
+
+theorem foldl_offStep (p : Int) : ∀ (l : List Int) (acc : Option Int),
+    (∀ o, acc = some o → 0 < o) →
+    (l.foldl (offStep p) acc = none → acc = none ∧ ∀ q ∈ l, q ≤ p) ∧
+    (∀ o, l.foldl (offStep p) acc = some o →
+      0 < o ∧ (acc = some o ∨ (p + o) ∈ l) ∧ (∀ q ∈ l, q ≤ p + o) ∧ (∀ a, acc = some a → a ≤ o)) := by
+  intro l
+  induction l with
+  | nil =>
+    intro acc hacc
+    refine ⟨fun h => ⟨h, fun q hq => by simp at hq⟩, ?_⟩
+    intro o ho
+    exact ⟨hacc o ho, Or.inl ho, fun q hq => by simp at hq, fun a ha => by
+      have : acc = some o := ho
+      rw [this] at ha; simp only [Option.some.injEq] at ha; omega⟩
+  | cons x l ih =>
+    intro acc hacc
+    simp only [List.foldl_cons]
+    by_cases hx : x > p
+    · have hstep : ∃ a', offStep p acc x = some a' ∧ 0 < a' ∧ x - p ≤ a' ∧ (∀ a, acc = some a → a ≤ a') ∧
+          (a' = x - p ∨ acc = some a') := by
+        unfold offStep
+        simp only [hx, if_true]
+        cases acc with
+        | none => exact ⟨x - p, rfl, by omega, Int.le_refl _, fun a ha => by simp at ha, Or.inl rfl⟩
+        | some a =>
+          simp only
+          have := hacc a rfl
+          by_cases hgt : x - p > a
+          · simp only [hgt, if_true]
+            exact ⟨x - p, rfl, by omega, Int.le_refl _, fun a' ha' => by simp only [Option.some.injEq] at ha'; omega, Or.inl rfl⟩
+          · simp only [hgt, if_false]
+            exact ⟨a, rfl, this, by omega, fun a' ha' => by simp only [Option.some.injEq] at ha'; omega, Or.inr rfl⟩
+      obtain ⟨a', ha', hpos, hle, hmin, hor⟩ := hstep
+      rw [ha']
+      obtain ⟨ih1, ih2⟩ := ih (some a') (fun o ho => by simp only [Option.some.injEq] at ho; omega)
+      refine ⟨fun h => by have := (ih1 h).1; simp at this, ?_⟩
+      intro o ho
+      obtain ⟨h1, h2, h3, h4⟩ := ih2 o ho
+      have hao : a' ≤ o := h4 a' rfl
+      refine ⟨h1, ?_, ?_, ?_⟩
+      · rcases h2 with h2 | h2
+        · simp only [Option.some.injEq] at h2
+          subst h2
+          rcases hor with hor | hor
+          · right
+            have : p + a' = x := by omega
+            rw [this]; exact List.mem_cons_self
+          · exact Or.inl hor
+        · exact Or.inr (List.mem_cons_of_mem _ h2)
+      · intro q hq
+        rcases List.mem_cons.mp hq with rfl | hq
+        · omega
+        · exact h3 q hq
+      · intro a ha
+        have := hmin a ha
+        omega
+    · have hstep : offStep p acc x = acc := by unfold offStep; simp [hx]
+      rw [hstep]
+      obtain ⟨ih1, ih2⟩ := ih acc hacc
+      refine ⟨?_, ?_⟩
+      · intro h
+        obtain ⟨h1, h2⟩ := ih1 h
+        refine ⟨h1, ?_⟩
+        intro q hq
+        rcases List.mem_cons.mp hq with rfl | hq
+        · omega
+        · exact h2 q hq
+      · intro o ho
+        obtain ⟨h1, h2, h3, h4⟩ := ih2 o ho
+        refine ⟨h1, ?_, ?_, h4⟩
+        · rcases h2 with h2 | h2
+          · exact Or.inl h2
+          · exact Or.inr (List.mem_cons_of_mem _ h2)
+        · intro q hq
+          rcases List.mem_cons.mp hq with rfl | hq
+          · omega
+          · exact h3 q hq
+
+/-- the points of the prerequisite atoms -/
+def atomPts (pres : List Pre) : List Int := pres.flatMap fun pr => pr.atoms.map fun a => a.1.pt
+
+/-- **what `atomFutOff` computes**: `none` iff no prerequisite atom lies at a later point; `some o` iff `o > 0`, some
+atom lies exactly `o` cycles later and none lies further -/
+theorem atomFutOff_spec (p : Int) (pres : List Pre) :
+    (atomFutOff p pres = none → ∀ q ∈ atomPts pres, q ≤ p) ∧
+    (∀ o, atomFutOff p pres = some o → 0 < o ∧ (p + o) ∈ atomPts pres ∧ ∀ q ∈ atomPts pres, q ≤ p + o) := by
+  obtain ⟨h1, h2⟩ := foldl_offStep p (atomPts pres) none (fun o ho => by simp at ho)
+  constructor
+  · intro h; exact (h1 h).2
+  · intro o ho
+    obtain ⟨a, b, c, _⟩ := h2 o ho
+    refine ⟨a, ?_, c⟩
+    rcases b with b | b
+    · simp at b
+    · exact b
+
+/-- under `wfFut` the offset the model (and the judge) use for an instance is the one its atoms give -/
+theorem instOff_of_wfFut (g : Graph) (hwf : wfFut g = true) (n : String) (p : Int) (t : TaskDefn) (d : InstDef)
+    (ht : g.task? n = some t) (hd : t.inst? p = some d) : instOff g n p = atomFutOff p (d.pre ++ d.sui) := by
+  unfold instOff
+  rw [ht]
+  simp only [Option.bind_some, hd]
+  unfold TaskDefn.inst? at hd
+  cases hf : t.insts.find? (fun x => x.1 == p) with
+  | none => rw [hf] at hd; simp at hd
+  | some pd =>
+    rw [hf] at hd
+    simp only [Option.map_some, Option.some.injEq] at hd
+    have hmem : pd ∈ t.insts := List.mem_of_find?_eq_some hf
+    have hp : pd.1 = p := by simpa using List.find?_some hf
+    have htm : t ∈ g.tasks := List.mem_of_find?_eq_some ht
+    have h1 := List.all_eq_true.mp (List.all_eq_true.mp hwf t htm) pd hmem
+    rw [hd, hp] at h1
+    simpa using h1
+
 end CylcModel.Sched3Fut
